@@ -16,6 +16,12 @@ CLAIMED = {
     design_ref="DESIGN.md section 5 C15",
     note="Trusted: TLC, the recording driver (harness/cmd/vdrive/page.go) and its payload encode/decode. Exhaustive within the alphabet and slot bound; arbitrary sizes sampled.",
     technique="TLA+ spec + TLC exhaustive check; state-graph-guided replay on a real TablePage; TLC trace validation of random operation sequences"),
+ "C18": dict(
+    category="model_checking",
+    text="The encoding scheme is one width-parametric TLA+ definition (spec/KeyEncoding). TLC proves by enumeration at reduced width (all pairs of 6-bit integers, 1+5-bit non-NaN floats, strings <= 3 over 3 letters, row ids) order preservation, round trip, key dominance over the row-id suffix, distinctness and the ScanKey bounds; vectors recorded from the real Encode/Extract/Pack/Unpack functions at full width (boundaries, +-2^k(+-1), -0.0, denormals, infinities, prefix strings, extreme row ids, seeded random pairs) are judged by TLC, which evaluates the order requirement directly on the recorded bytes and compares them with the scheme; thorough adds a strided sweep in numeric order whose candidates TLC judges.",
+    design_ref="DESIGN.md section 5 C18",
+    note="A pure function is at the edge of this family: the all-values claim rests on the scheme being width-parametric plus sampled full-width vectors, not on enumerating 2^32 values. Trusted: TLC, the vector recorder (harness/cmd/vdrive/enc.go).",
+    technique="TLA+ parametric scheme checked for all pairs at reduced width by TLC; TLC validation of recorded full-width vectors"),
 }
 
 NOT_APPLICABLE = {
